@@ -33,12 +33,22 @@ def generate() -> str:
     last = fn.body[-1]
     if not (isinstance(last, ast.Return) and isinstance(last.value, ast.Constant) and last.value.value is True):
         raise TranslationError(f"{REL}: send_data: final 'return True' expected")
-    tries = [n for n in loop.body if isinstance(n, ast.Try)]
+    def is_wait(n):
+        return isinstance(n, ast.While) and any(isinstance(c, ast.Attribute) and c.attr == "select" for c in ast.walk(n.test))
+
+    def is_guarded_wait(n):
+        # try: <the wait loop>  except (OSError, ValueError): return False      (the socket was closed meanwhile: a failure like any other)
+        return (isinstance(n, ast.Try) and len(n.body) == 1 and is_wait(n.body[0]) and len(n.handlers) == 1 and not n.orelse and not n.finalbody
+                and len(n.handlers[0].body) >= 1 and isinstance(n.handlers[0].body[-1], ast.Return) and isinstance(n.handlers[0].body[-1].value, ast.Constant)
+                and n.handlers[0].body[-1].value.value is False
+                and all(isinstance(st, ast.Expr) and isinstance(st.value, ast.Constant) for st in n.handlers[0].body[:-1]))
+
+    tries = [n for n in loop.body if isinstance(n, ast.Try) and not is_guarded_wait(n)]
     if len(tries) != 1:
-        raise TranslationError(f"{REL}: send_data: one try statement in the loop expected")
+        raise TranslationError(f"{REL}: send_data: one try statement around the send expected in the loop")
     tr = tries[0]
-    # the wait for writability precedes the try
-    waits = [n for n in loop.body[: loop.body.index(tr)] if isinstance(n, ast.While) and any(isinstance(c, ast.Attribute) and c.attr == "select" for c in ast.walk(n.test))]
+    # the wait for writability precedes the try (bare, or guarded so that a closed socket counts as a failed send)
+    waits = [n for n in loop.body[: loop.body.index(tr)] if is_wait(n) or is_guarded_wait(n)]
     if len(waits) != 1:
         raise TranslationError(f"{REL}: send_data: the select() wait before the send was not found")
     # error handling
